@@ -344,6 +344,35 @@ pub fn run(ctx: &Ctx) -> PropResult {
             judge_time(rec, n, o);
         }
     }));
+    // "FromStr reads … RFC 3339": grammatical timestamps (any fraction length, Z, ±hh:mm incl. -00:00) through
+    // str::parse::<DateTime>() and through serde_json — the same value as DateTime::parse_rfc3339 gives, never an error
+    wls.push(Workload::cases("fromstr_reads_grammatical_rfc3339", ctx.count(40_000, 1_500_000), |rec, _, rng| {
+        rec.eval();
+        rec.api("DateTime::from_str / Deserialize on grammatical RFC 3339");
+        let st = crate::model::rfc3339::gen_valid(rng);
+        let text = st.text();
+        rec.bin("datetime/fromstr-grammatical-rfc3339");
+        rec.nontrivial(hash_str(&text) ^ 0x2020);
+        let js = serde_json::to_string(&text).unwrap();
+        let r = trap(|| {
+            let a = DateTime::from_str(&text).map_err(|e| e.to_string());
+            let b = serde_json::from_str::<DateTime>(&js).map_err(|e| e.to_string());
+            let c = DateTime::parse_rfc3339(&text).map_err(|e| e.to_string());
+            let same = match (&a, &b, &c) {
+                (Ok(x), Ok(y), Ok(z)) => x == z && y == z && x.get_offset() == z.get_offset() && y.get_offset() == z.get_offset() && x.nanos_since(z) == 0,
+                _ => false,
+            };
+            (a.map(|x| x.format_rfc3339(Precision::Nanos)), b.map(|x| x.format_rfc3339(Precision::Nanos)), c.map(|x| x.format_rfc3339(Precision::Nanos)), same)
+        });
+        match r {
+            Err(p) => rec.violation(format!("C20|datetime|FromStr/Deserialize|panic|{},{}", p.class, p.site()), || json!({"text": text, "panic": p.to_json()})),
+            Ok((a, b, c, same)) => {
+                if a.is_err() || b.is_err() || (c.is_ok() && !same) {
+                    rec.violation("C20|datetime|FromStr/Deserialize|does-not-read-grammatical-rfc3339".to_string(), || json!({"text": text, "from_str": format!("{:?}", a), "serde_json": format!("{:?}", b), "parse_rfc3339": format!("{:?}", c)}));
+                }
+            }
+        }
+    }));
     wls.push(Workload::cases("malformed_strings", ctx.count(150_000, 4_000_000), |rec, idx, rng| {
         let (kind, base): (Kind, String) = match idx % 3 {
             0 => (Kind::Date, format!("{:04}-{:02}-{:02}", rng.range_i64(1, 9999), rng.range_i64(1, 12), rng.range_i64(1, 28))),
@@ -362,7 +391,7 @@ pub fn run(ctx: &Ctx) -> PropResult {
     );
     meta.required_bins = vec![
         "local-twin/zone-switch-judged",
-        "year/negative", "year/negative-5+digits", "year/5+digits", "year/<4digits", "year/4digits", "time/offset0", "time/with-offset", "time/local-midnight-stratum", "datetime/same-instant-offset-sequence",
+        "year/negative", "year/negative-5+digits", "year/5+digits", "year/<4digits", "year/4digits", "time/offset0", "time/with-offset", "time/local-midnight-stratum", "datetime/same-instant-offset-sequence", "datetime/fromstr-grammatical-rfc3339",
         "datetime/serde-claimed", "datetime/display-only", "datetime/negative-offset", "malformed/rejected",
     ];
     meta.assumptions = vec!["serde is exercised through serde_json (string serializer/deserializer); fmt_spec supplies the documented default renderings".into()];
